@@ -574,6 +574,61 @@ func main() {
 		}
 	})
 
+	// slanted rings: the nearest ring is decided between distances below one unit (squared distances and plain
+	// distances order differently there only if they are mixed up), every lattice point around a slanted outer ring
+	// with slanted holes
+	slOuters := [][]ipt{{{0, 0}, {48, 0}, {48, 32}}, {{0, 0}, {24, 0}, {12, 20}}, {{0, 0}, {30, 10}, {10, 30}}}
+	slHoles := [][]ipt{{{5, 1}, {8, 4}, {9, 1}}, {{10, 2}, {14, 8}, {16, 3}}, {{12, 6}, {13, 9}, {15, 7}}, {{20, 4}, {22, 9}, {26, 5}}}
+	r.Explore("slanted-holes", fmt.Sprintf("%d slanted outer rings x every subset of %d slanted triangular holes x every lattice point of the outer ring's box (+2): DistanceFrom the polygon, the multi-polygon and the collection is the exact minimum over all ring segments", len(slOuters), len(slHoles)), mc.Opts{MaxDev: -1, Split: 2}, func(c *mc.Ctx) {
+		oi := c.Choose(len(slOuters))
+		mask := c.Choose(1 << len(slHoles))
+		rings := [][]ipt{slOuters[oi]}
+		for hi := range slHoles {
+			if mask&(1<<hi) != 0 {
+				rings = append(rings, slHoles[hi])
+			}
+		}
+		poly := make(orb.Polygon, len(rings))
+		for i, ir := range rings {
+			for _, p := range ir {
+				poly[i] = append(poly[i], fpt(p))
+			}
+			poly[i] = append(poly[i], poly[i][0])
+		}
+		var maxX, maxY int64
+		for _, p := range slOuters[oi] {
+			if p[0] > maxX {
+				maxX = p[0]
+			}
+			if p[1] > maxY {
+				maxY = p[1]
+			}
+		}
+		for qx := int64(-2); qx <= maxX+2; qx++ {
+			for qy := int64(-2); qy <= maxY+2; qy++ {
+				q := ipt{qx, qy}
+				var best *big.Rat
+				for _, ir := range rings {
+					for i := range ir {
+						if d := segDist2(ir[i], ir[(i+1)%len(ir)], q); best == nil || d.Cmp(best) < 0 {
+							best = d
+						}
+					}
+				}
+				want := math.Sqrt(f64(best))
+				for gi, g := range []orb.Geometry{poly, orb.MultiPolygon{poly}, orb.Collection{poly}} {
+					if got := math.Abs(planar.DistanceFrom(g, fpt(q))); math.Abs(got-want) > 1e-9*math.Max(1, want) {
+						c.Failf("slanted-distance", "DistanceFrom(form %d of %v, %v) = %v, the exact minimum over all ring segments is %v", gi, poly, fpt(q), got, want)
+						return
+					}
+				}
+			}
+		}
+		if len(rings) > 1 {
+			c.NonTrivial()
+		}
+	})
+
 	// long lines: length is the sum of ALL segment lengths however many there are
 	lineLens := []int{3, 100, 128, 129, 130, 257, 513, 1000}
 	r.Explore("long-lines", fmt.Sprintf("unit staircases and 3-4-5 zigzags of %v vertices as line string, ring, polygon, multi-line-string and collection: Length is exactly the number of steps (x5 for the zigzag)", lineLens), mc.Opts{MaxDev: -1}, func(c *mc.Ctx) {
